@@ -217,6 +217,13 @@ func (o *ExtStrictClaims) Validate() error {
 	if id, err := o.GetClientID(); err == nil && id < 0 {
 		return fmt.Errorf("%w: this profile requires a non-negative client id", psatoken.ErrWrongSyntax)
 	}
+	// this profile does not allow the certification reference, and makes the boot seed mandatory
+	if _, err := o.GetCertificationReference(); err == nil {
+		return fmt.Errorf("certification reference: %w", psatoken.ErrClaimNotInProfile)
+	}
+	if _, err := o.GetBootSeed(); err != nil {
+		return fmt.Errorf("boot seed required by this profile: %w", err)
+	}
 	return nil
 }
 func (o ExtStrictClaims) MarshalCBOR() ([]byte, error) {
